@@ -1,6 +1,6 @@
 (* Python's sorted(iterable, key=f): a STABLE ascending sort by key.  `le` is the order on keys (x <= y); an element is placed before the first
    element whose key is not smaller than its own, so elements with equal keys keep their original order. *)
-From Coq Require Import List Bool.
+From Coq Require Import List Bool Arith.
 Import ListNotations.
 
 Section PySorted.
@@ -16,3 +16,12 @@ Fixpoint py_insert (x : T) (l : list T) : list T :=
 Fixpoint py_sorted (l : list T) : list T :=
   match l with [] => [] | x :: r => py_insert x (py_sorted r) end.
 End PySorted.
+
+(* rapidfuzz.process.extract(query, choices, scorer=, score_cutoff=, limit=) for a distance scorer: the choices whose score does not exceed the
+   cutoff as (choice, score, index in choices), ascending by score, ties by index, the first `limit` of them when a limit is given *)
+Definition rf_extract {S : Type} (scorer : S -> S -> nat) (query : S) (choices : list S) (cutoff : nat) (limit : option nat)
+  : list (S * nat * nat) :=
+  let scored := map (fun ic => (snd ic, scorer query (snd ic), fst ic)) (combine (seq 0 (length choices)) choices) in
+  let kept := filter (fun t => Nat.leb (snd (fst t)) cutoff) scored in
+  let srt := py_sorted Nat.leb (fun t : S * nat * nat => snd (fst t)) kept in
+  match limit with None => srt | Some m => firstn m srt end.
